@@ -21,6 +21,15 @@ Res(n) == ref[n - LowestInit(prog) + 1]
 OutMod == prog[Len(prog)]
 OutOf(r) == IF "outmod" \in DOMAIN r.cfg /\ r.cfg.outmod # "" THEN ModByName(prog, r.cfg.outmod) ELSE OutMod
 StoreInits(p) == LET s == SelectSeq(p, LAMBDA m : m.kind = "store") IN [i \in DOMAIN s |-> s[i].init]
+RECURSIVE DepsOf(_)
+DepsOf(name) ==
+  LET m == ModByName(prog, name)
+      d == {m.inputs[i].v : i \in {j \in DOMAIN m.inputs : m.inputs[j].k \in {"map", "store"}}}
+           \cup (IF m.filter = <<>> THEN {} ELSE {m.filter[1]}) IN
+  d \cup UNION {DepsOf(x) : x \in d}
+\* the part of the program a request uses: its output module and everything it depends on (requests for different
+\* output modules share one cache directory)
+UProg(r) == LET used == {OutOf(r).name} \cup DepsOf(OutOf(r).name) IN SelectSeq(prog, LAMBDA m : m.name \in used)
 
 Datas(o) == SelectSeq(o.resp, LAMBDA x : x.kind = "data")
 
@@ -30,15 +39,15 @@ Has(fs, mod, kind, a, b) == \E i \in DOMAIN fs : ~fs[i].tmp /\ fs[i].mod = mod /
 OutputCachedButStoreSnapshotMissing(r) ==
   LET fs == r.filesBefore IN
   \E i \in DOMAIN fs : ~fs[i].tmp /\ fs[i].mod = OutOf(r).name /\ fs[i].kind = "output" /\
-     \E j \in DOMAIN prog : prog[j].kind = "store" /\ prog[j].init < fs[i].end /\
-        ~Has(fs, prog[j].name, "kv", prog[j].init, fs[i].end) /\
-        ~Has(fs, prog[j].name, "partial", Max(prog[j].init, fs[i].start - (fs[i].start % r.cfg.seg)), fs[i].end)
+     \E j \in DOMAIN UProg(r) : LET m == UProg(r)[j] IN m.kind = "store" /\ m.init < fs[i].end /\
+        ~Has(fs, m.name, "kv", m.init, fs[i].end) /\
+        ~Has(fs, m.name, "partial", Max(m.init, fs[i].start - (fs[i].start % r.cfg.seg)), fs[i].end)
 \* production request whose back-filled range lies entirely below every store's initial block although the graph has
 \* store stages: NewStages drops the store stages and the unit's stage index no longer is the graph's stage index
 StoreStagesDroppedFromMatrix(r) ==
   LET c == r.cfg
-      H == Handoff(c.prod, c.start, c.stop, c.libok, c.lib, StateRequiredAt(StoreInits(prog), c.start), c.seg) IN
-  c.prod /\ c.start < H /\ StoreInits(prog) # <<>> /\ \A i \in DOMAIN StoreInits(prog) : StoreInits(prog)[i] >= H
+      H == Handoff(c.prod, c.start, c.stop, c.libok, c.lib, StateRequiredAt(StoreInits(UProg(r)), c.start), c.seg) IN
+  c.prod /\ c.start < H /\ StoreInits(UProg(r)) # <<>> /\ \A i \in DOMAIN StoreInits(UProg(r)) : StoreInits(UProg(r))[i] >= H
 \* the full snapshots of some store found in the cache are not a prefix of the segment boundaries (a later one exists
 \* while an earlier one is missing): the scheduler takes the later unit for Completed and starts a job of a higher
 \* stage whose input snapshot at the segment START does not exist yet (stages.go dependenciesCompleted)
@@ -50,9 +59,9 @@ SnapshotHole(r) ==
 \* stage has no segment to process, its units never complete and the scheduler waits forever
 LowerStoreAboveHandoff(r) ==
   LET c == r.cfg
-      H == Handoff(c.prod, c.start, c.stop, c.libok, c.lib, StateRequiredAt(StoreInits(prog), c.start), c.seg) IN
-  \E i \in DOMAIN prog : prog[i].kind = "store" /\ prog[i].init < H /\
-     \E k \in DOMAIN prog[i].inputs : prog[i].inputs[k].k = "store" /\ ModByName(prog, prog[i].inputs[k].v).init >= H
+      H == Handoff(c.prod, c.start, c.stop, c.libok, c.lib, StateRequiredAt(StoreInits(UProg(r)), c.start), c.seg) IN
+  \E i \in DOMAIN UProg(r) : LET m == UProg(r)[i] IN m.kind = "store" /\ m.init < H /\
+     \E k \in DOMAIN m.inputs : m.inputs[k].k = "store" /\ ModByName(prog, m.inputs[k].v).init >= H
 FailSig(r) ==
   IF "filesBefore" \in DOMAIN r /\ SnapshotHole(r) THEN "request_failed:store_snapshot_hole"
   ELSE IF "filesBefore" \in DOMAIN r /\ OutputCachedButStoreSnapshotMissing(r) THEN "request_failed:output_cached_but_store_snapshot_missing"
@@ -62,12 +71,6 @@ FailSig(r) ==
 
 \* the deterministic failure is programmed in the source mapper m_src: it happens iff m_src is needed for the output
 \* module and executes at the failing block
-RECURSIVE DepsOf(_)
-DepsOf(name) ==
-  LET m == ModByName(prog, name)
-      d == {m.inputs[i].v : i \in {j \in DOMAIN m.inputs : m.inputs[j].k \in {"map", "store"}}}
-           \cup (IF m.filter = <<>> THEN {} ELSE {m.filter[1]}) IN
-  d \cup UNION {DepsOf(x) : x \in d}
 FailExpected(r) ==
   /\ "m_src" \in DepsOf(OutOf(r).name)
   /\ r.failAt <= MaxBlock /\ r.failAt >= LowestInit(prog)
@@ -76,7 +79,7 @@ FailExpected(r) ==
 RunFails(r, from) ==
   LET c == r.cfg  o == r.obs  ds == Datas(o)
       S == c.start  E == c.stop
-      H == Handoff(c.prod, S, E, c.libok, c.lib, StateRequiredAt(StoreInits(prog), S), c.seg)
+      H == Handoff(c.prod, S, E, c.libok, c.lib, StateRequiredAt(StoreInits(UProg(r)), S), c.seg)
       nums == {ds[i].num : i \in DOMAIN ds}
       resumed == c.cursor # ""
       \* when resuming from the cursor of delivered block b, the stream is that of a request starting at b+1
@@ -219,7 +222,7 @@ Debug(r) ==
   IF "VERIF_DEBUG" \notin DOMAIN IOEnv THEN <<>>
   ELSE [exp |-> [n \in r.cfg.start..Min(r.cfg.stop - 1, MaxBlock) |-> <<n, PayloadOf(Res(n), OutOf(r).name), Res(n).outs>>],
         kv |-> IF r.cfg.stop - 1 <= MaxBlock THEN Res(r.cfg.stop - 1).kv ELSE <<>>,
-        H |-> Handoff(r.cfg.prod, r.cfg.start, r.cfg.stop, r.cfg.libok, r.cfg.lib, StateRequiredAt(StoreInits(prog), r.cfg.start), r.cfg.seg)]
+        H |-> Handoff(r.cfg.prod, r.cfg.start, r.cfg.stop, r.cfg.libok, r.cfg.lib, StateRequiredAt(StoreInits(UProg(r)), r.cfg.start), r.cfg.seg)]
 
 Init == l = 1 /\ bad = <<>> /\ drift = <<>> /\ prog = <<>> /\ seg = 0 /\ ref = <<>> /\ orig = <<>>
 Next ==
